@@ -148,8 +148,34 @@ func anyFileNewerThan(files []string, givenTime time.Time) (bool, error) {
 	return false, nil
 }
 
-// OnError implements the Checker interface
-func (*TimestampChecker) OnError(t *ast.Task) error {
+// Record creates the marker of the last successful run and gives it the time
+// at which that run's up-to-date check was made.
+func (checker *TimestampChecker) Record(t *ast.Task, at time.Time) error {
+	if len(t.Sources) == 0 || checker.dry {
+		return nil
+	}
+	timestampFile := checker.timestampFilePath(t)
+	if err := os.MkdirAll(filepath.Dir(timestampFile), 0o755); err != nil {
+		return err
+	}
+	f, err := os.OpenFile(timestampFile, os.O_CREATE|os.O_WRONLY, 0o644)
+	if err != nil {
+		return err
+	}
+	f.Close()
+	return os.Chtimes(timestampFile, at, at)
+}
+
+// OnError implements the Checker interface. The marker was created or
+// touched during the up-to-date check, i.e. before the commands ran: remove
+// it again so that a failed run is not taken for a finished one.
+func (checker *TimestampChecker) OnError(t *ast.Task) error {
+	if len(t.Sources) == 0 {
+		return nil
+	}
+	if err := os.Remove(checker.timestampFilePath(t)); err != nil && !os.IsNotExist(err) {
+		return err
+	}
 	return nil
 }
 
